@@ -6,10 +6,14 @@ package match
 
 // A matcher is modelled as a pure function of (matcher, document): the built-in matchers are deterministic;
 // for match.Custom this is an assumption about the user's callback (listed in the evidence).
+// The built-in JSON matchers rewrite the document in place (sjson ReplaceInPlace), so a matcher must only be given
+// bytes that do not belong to the caller of the snaps entry point.
 //@ func JSONMatcher.JSON(m, b) returns (out, errs)
 //@   nobody
+//@   requires [owned] owned(b)
 //@   assigns nothing
 //@   ensures out == mjOut(m, b) && len(errs) == mjNErr(m, b)
+//@   ensures owned(out)
 //@
 //@ func YAMLMatcher.YAML(m, b) returns (out, errs)
 //@   nobody
